@@ -291,15 +291,15 @@ Section Claims.
         - exists m. split; [reflexivity|]. split; [|reflexivity]. intros h' r'.
           destruct (String.eqb_spec h' h); destruct (String.eqb_spec r' r); subst; simpl; rewrite ?Hheld, ?orb_false_r; reflexivity.
         - destruct Hinv as [_ [_ Hri]]. specialize (Hri r). unfold RInv in Hri. destruct (cap m r) as [c|] eqn:Hc; [|discriminate].
-          inversion Hr as [Hnz]. apply negb_true_iff in Hnz. apply Z.eqb_neq in Hnz.
+          assert (Hnz : negb (c =? 0) = true) by congruence. apply negb_true_iff in Hnz. apply Z.eqb_neq in Hnz.
           destruct (cap0 r) as [c0|] eqn:Hc0; [|destruct Hri; congruence].
           destruct Hri as [c' [Hc' [_ Hp]]]. inversion Hc'; subst c'.
           specialize (Hp (cap0_nonneg r c0 Hc0)). unfold cap_or0. rewrite Hc.
           assert (Hge : (c - 1 <? 0) = false) by (apply Z.ltb_ge; lia). rewrite Hge.
           eexists. split; [reflexivity|]. split.
           + intros h' r'. simpl. unfold upd2. destruct (String.eqb h' h && String.eqb r' r) eqn:Eb.
-            * rewrite orb_true_r. reflexivity.
-            * rewrite orb_false_r. reflexivity.
+            * destruct (holds m h' r'); reflexivity.
+            * destruct (holds m h' r'); reflexivity.
           + intros r' Hne. simpl. apply upd_other. exact Hne. }
       destruct E1 as [m1 [E1 [Hh1 Hc1]]]. rewrite E1.
       assert (Hinv1 : MInv cap0 hs m1) by (eapply reserve1_inv; eauto).
@@ -402,7 +402,7 @@ Section Claims.
     intros gate md s h cands Hs Hk. assert (Hs' := Hs). destruct Hs' as [Hm [Hheld Hout]]. unfold step.
     destruct (otr_total (s_hosts s) gate md (s_mgr s) h (s_res s h) cands Hm Hk) as [o [Eo Hspec]]. rewrite Eo.
     destruct o as [ofs|].
-    2:{ exists s, Deferred. repeat split; assumption. }
+    2:{ exists s, Deferred. split; [reflexivity|]. split; [exact Hs|]. split; [exact Hspec | reflexivity]. }
     assert (Hcan : forall r, In r ofs -> can_reserve (s_mgr s) h r = Some true).
     { intros r Hin. simpl in Hspec. destruct gate; [apply Hspec in Hin; tauto | subst ofs; destruct Hin]. }
     destruct (reserve_ok (add_host h (s_hosts s)) ofs (s_mgr s) h (MInv_add_host s h Hs) (add_host_in h _) Hcan)
@@ -654,11 +654,11 @@ Qed.
 
 Lemma strict_ok_b_spec : forall md c, strict_ok_b md c = true <-> strict_ok md c.
 Proof.
-  intros md [[[h pinned] ctonly] cands]. unfold strict_ok_b, strict_ok. destruct md; destruct pinned; split; try (intros; reflexivity); try discriminate.
-  - intros _ H; discriminate.
-  - intros _ _ H; discriminate.
-  - intros H _ _. apply is_nil_spec. exact H.
-  - intros H. apply is_nil_spec. apply H; reflexivity.
+  intros md [[[h pinned] ctonly] cands]. unfold strict_ok_b, strict_ok. destruct md; destruct pinned.
+  - split; [intros _ H; discriminate | reflexivity].
+  - split; [intros _ H; discriminate | reflexivity].
+  - split; [intros _ _ H; discriminate | reflexivity].
+  - split; [intros H _ _; apply is_nil_spec; exact H | intros H; apply is_nil_spec; apply H; reflexivity].
 Qed.
 
 Lemma solve_ok_b_spec : forall md offs claims s, solve_ok_b md offs claims s = true <-> solve_ok md offs claims s.
